@@ -14,7 +14,7 @@ RULE = ("each generated input (snps: reference + alignment, both gap modes; vari
         "sequences to 9 decimals, kept iff frequency >= threshold, non-decreasing genomic position; the Coq model of both "
         "aggregators (counting, total sort key, float64 division, 'f',9 formatting) is compared byte for byte. "
         "Non-trivial: >=2 sequences share a mutation. Distinct by case content.")
-ASSUMPTIONS = ["sam variants --aggregate shares AggregateWriteVariants with variants; its per-sequence equality with variants is C11"]
+ASSUMPTIONS = ["sam variants groups are decided by the recount oracle (Go against the statement), not by the Coq model; its per-sequence equality with variants is C11"]
 
 
 def snps_case(cid, hard, thr, ref, aln, meta):
@@ -126,6 +126,46 @@ def generate(ctx):
             cs.append(dict(vcommon.variants_case(cid, msa, "REF", annob, suffix,
                                                  {"kind": "variants:agg", "nontrivial": shared, "group": g, "role": "agg", "nseq": nseq, "thr": t},
                                                  start=s, end=e, append_snps=append, aggregate=True, threshold=t), wrap="CVar"))
+            cid += 1
+    # ---- sam variants (the third command of the statement): per-sequence vs --aggregate on one SAM file; in half of the
+    # groups one read carries the name of the reference record (it is not a query: it is left out of both)
+    import samgen
+    for g in range(2 * n, 2 * n + max(3, n // 2)):
+        suffix = rng.choice(["gb", "gff"])
+        L = rng.choice([30, 45])
+        genome = gen.rand_seq(rng, L)
+        feats = anno.random_features(rng, L, max_feats=2, mod3_segments=True)
+        genome, feats = anno.patch_stops(rng, genome, feats)
+        if not feats:
+            continue
+        annob = anno.render_genbank(genome, feats, rng) if suffix == "gb" else anno.render_gff(genome, feats)
+        nq = rng.randint(3, 6)
+        protos = [gen.mutate(rng, genome, p_sub=0.1, p_amb=0.0, p_gap=0.0, p_lower=0.0) for _ in range(2)]
+        recs = []
+        names = ["q%d" % i for i in range(nq)]
+        if g % 2 == 0:
+            names[rng.randrange(nq)] = "REF"
+        for nm in names:
+            truth = rng.choice(protos)
+            cig = [("M", L)] if rng.random() < 0.6 else [("M", L // 2), ("I", 2), ("M", L - L // 2)]
+            recs.append({"name": nm, "flag": 0, "pos": 0, "cigar": cig, "seq": samgen.build_seq(rng, cig, 0, truth)})
+        samb = samgen.render_sam("REF", L, recs)
+        refb = gen.layout(rng, [("REF", genome)], "plain")
+        append = rng.random() < 0.5
+        nseq = sum(1 for nm in names if nm != "REF")
+        thrs = sorted(set([0.0, 1.0] + [k / nseq for k in range(1, nseq + 1)]))
+        def sv(cid, aggregate, thr):
+            return {"id": cid, "go": {"id": cid, "op": "samvariants", "sam": cm.b64(samb), "ref": cm.b64(refb), "anno": cm.b64(annob), "suffix": suffix,
+                                      "ref_from_file": True, "start": -1, "end": -1, "append_snps": append, "aggregate": aggregate, "threshold": thr, "threads": 2},
+                    "coq": None, "skipcoq": True,
+                    "meta": {"kind": "samvariants:" + ("agg" if aggregate else "perseq"), "nontrivial": aggregate, "group": g,
+                             "role": "agg" if aggregate else "perseq", "nseq": nseq, "thr": thr},
+                    "sample": {"cmd": "sam variants" + (" --aggregate --threshold %r" % thr if aggregate else ""), "sam": samb.decode(),
+                               "reference": genome, "annotation": annob.decode(), "suffix": suffix, "append_snps": append}, "info": {}}
+        cs.append(sv(cid, False, 0.0))
+        cid += 1
+        for t in thrs:
+            cs.append(sv(cid, True, t))
             cid += 1
     # wrap the coq terms
     for c in cs:
